@@ -218,9 +218,44 @@ def translate_all():
     return out
 
 
+def stack_proxy_test():
+    """the unbound test of the LocalStack closure in LocalProxy.__init__: 'isNone' or 'falsy'"""
+    path = os.path.join(REPO, "src", "werkzeug", "local.py")
+    tree = ast.parse(open(path).read())
+    cls = [n for n in tree.body if isinstance(n, ast.ClassDef) and n.name == "LocalProxy"]
+    if len(cls) != 1:
+        raise Untranslatable("class LocalProxy not found")
+    init = [n for n in cls[0].body if isinstance(n, ast.FunctionDef) and n.name == "__init__"]
+    if len(init) != 1:
+        raise Untranslatable("LocalProxy.__init__ not found")
+    found = []
+    for node in ast.walk(init[0]):
+        if isinstance(node, ast.If) and isinstance(node.test, ast.Call) and ast.unparse(node.test) == "isinstance(local, LocalStack)":
+            fns = [n for n in node.body if isinstance(n, ast.FunctionDef) and n.name == "_get_current_object"]
+            if len(fns) != 1:
+                raise Untranslatable("LocalProxy.__init__: LocalStack branch without a single _get_current_object")
+            body = [st for st in fns[0].body if not (isinstance(st, ast.Expr) and isinstance(st.value, ast.Constant))]
+            if len(body) != 3 or ast.unparse(body[0]) != "obj = local.top" or ast.unparse(body[2]) != "return get_name(obj)":
+                raise Untranslatable("LocalProxy LocalStack closure: unexpected shape: " + "; ".join(ast.unparse(b) for b in body))
+            iff = body[1]
+            if not (isinstance(iff, ast.If) and not iff.orelse and len(iff.body) == 1 and isinstance(iff.body[0], ast.Raise) and ast.unparse(iff.body[0].exc).startswith("RuntimeError(")):
+                raise Untranslatable("LocalProxy LocalStack closure: unexpected unbound branch: " + ast.unparse(iff))
+            test = ast.unparse(iff.test)
+            if test == "obj is None":
+                found.append("isNone")
+            elif test == "not obj":
+                found.append("falsy")
+            else:
+                raise Untranslatable(f"LocalProxy LocalStack closure: unsupported unbound test {test!r}")
+    if len(found) != 1:
+        raise Untranslatable(f"LocalProxy.__init__: expected one LocalStack branch, found {len(found)}")
+    return found[0]
+
+
 @generator("LocalOps")
 def gen_localops():
     progs = translate_all()
+    ptest = stack_proxy_test()
     defs = []
     for cls, meth, lean, paths in progs:
         body = ",\n  ".join("[" + ", ".join(p) + "]" for p in paths)
@@ -234,6 +269,9 @@ open Wz.Local
 /-- every translated method body, by qualified name -/
 def programs : List (String × Prog) := [
   {table}]
+
+/-- the unbound test of the `LocalStack` closure in `LocalProxy.__init__` -/
+def stackProxyTest : ProxyTest := .{ptest}
 
 end Wz.Gen.LocalOps
 """
